@@ -113,8 +113,7 @@ def check(run):
     run.nontrivial = {str(x) for x in run.nontrivial}
     run.sample({"case": cases[100][:400], "impl": io[100][:300]})
     report_diffs(run, diffs, "coq/Client.v (handlers)", "zvt_feig_terminal::feig", "client")
-    if any(not v.get("no_failing_input_found") for v in run.violations):
-        run.violations = [v for v in run.violations if not v.get("no_failing_input_found")]
+    vlib.prefer_concrete(run)
     return vlib.finish(run, trusted_base=TB, assumptions=["the dangling-pre-authorisation query is answered with an abort-class packet carrying 0xB8 by protocol design; any other code aborts the query (since the fix of F11)",
                                                            "Feig::new discards the outcome of its initial configure() (observation O10); the property is decided for configure itself"])
 
